@@ -78,8 +78,8 @@ fcppt::container::tree::object<T> &fcppt::container::tree::object<
 
   this->value_ = _other.value_;
 
-  this->parent_ = nullptr;
-
+  // parent_ is left alone: assignment replaces the contents of this node, not
+  // its position in the parent's child list.
   this->children_ = this->copy_children(_other.children_);
 
   return *this;
@@ -93,8 +93,7 @@ fcppt::container::tree::object<T> &fcppt::container::tree::object<T>::operator=(
 
   children_ = this->move_children(std::move(_other.children_));
 
-  std::swap(parent_, _other.parent_);
-
+  // parent_ is left alone: neither node changes its position.
   return *this;
 }
 
